@@ -192,49 +192,39 @@ theorem fromEntireText_ne_fault (d : Bytes) : fromEntireText d ≠ .fault := by
 theorem withSym_ne_fault (o : Outcome) (s : Symbol) (h : o ≠ .fault) : withSym o s ≠ .fault := by
   cases o <;> simp_all [withSym]
 
-theorem findV5_ne_fault (secs : List Section) (syms : List Symbol) (k : String)
-    (wf : WellFormed secs syms) : findV5 secs k syms ≠ .fault := by
+/-- the repaired descriptor lookup cannot panic, on any view -/
+theorem findV5_never_faults (secs : List Section) (k : String) (syms : List Symbol) :
+    findV5 secs k syms ≠ .fault := by
   unfold findV5
-  cases hro : findSection secs ".rodata" with
+  cases findSection secs ".rodata" with
   | none => simp
   | some ro =>
-    obtain ⟨hrom, hron⟩ := findSection_spec hro
     simp only
-    cases hrd : ro.data with
+    cases ro.data with
     | none => simp
     | some rod =>
       simp only
-      cases hf : syms.find? (fun s => s.name == k ++ ".kd" && s.size == 64) with
+      cases syms.find? (fun s => s.name == k ++ ".kd" && s.size == 64) with
       | none => simp
       | some ks =>
         simp only
-        have hks : ks ∈ syms := List.mem_of_find?_eq_some hf
-        have hsz : ks.size = 64 := by
-          have := List.find?_some hf
-          simp only [Bool.and_eq_true, beq_iff_eq] at this
-          exact this.2
-        cases hsec : secs[ks.shndx]? with
+        cases secs[ks.shndx]? with
         | none => simp
         | some sec =>
           simp only
           split
-          · rename_i hn
-            have hn' : sec.name = ".rodata" := by simpa using hn
-            have hsm : sec ∈ secs := List.mem_of_getElem? hsec
-            have he : sec = ro := wf.uniq sec hsm ro hrom (by rw [hn', hron]) (Or.inr hn')
-            subst he
-            obtain ⟨h1, h2⟩ := wf.inside ks hks sec rod hsec hrd
-            have hl := wf.small sec hsm rod hrd
-            rw [hsz] at h2
-            have hoff : wrapSub ks.value sec.addr = ks.value - sec.addr := wrapSub_of_le h1
-            have hhi : (ks.value - sec.addr + 64) % U64 = ks.value - sec.addr + 64 :=
-              Nat.mod_eq_of_lt (by omega)
-            simp only [hoff, hhi]
-            rw [if_pos (by omega), if_pos (by omega)]
-            unfold parseV5KernelDescriptor?
-            rw [if_neg (by simp only [List.length_take, List.length_drop]; omega)]
-            simp
+          · split
+            · split
+              · rename_i hc
+                unfold parseV5KernelDescriptor?
+                rw [if_neg (by simp only [List.length_take, List.length_drop]; omega)]
+                simp
+              · simp
+            · simp
           · simp
+
+theorem findV5_ne_fault (secs : List Section) (syms : List Symbol) (k : String)
+    (_wf : WellFormed secs syms) : findV5 secs k syms ≠ .fault := findV5_never_faults secs k syms
 
 theorem loadNamed_ne_fault (secs : List Section) (text : Section) (td : Bytes) (syms : List Symbol) (k : String)
     (ht : findSection secs ".text" = some text) (htd : text.data = some td)
